@@ -38,7 +38,7 @@ ASSUMPTIONS = [
     "(generator closed, so the handler sees a fresh GeneratorExit)",
 ]
 PROBES = ("suppressed", "replaced_by_generator", "did_not_yield", "did_not_stop", "same_object_propagates",
-          "generatorexit_rule", "stopiteration_in_block")
+          "generatorexit_rule", "stopiteration_in_block", "second_entry_of_used_manager")
 
 PRE = ("yield", "raise", "noyield")
 HANDLERS = ("none", "finally", "swallow", "reraise", "raise_new", "raise_new_from_none", "raise_same_type",
@@ -110,6 +110,9 @@ def prepare(ch):
     prep.method = (not prep.partial) and ch.chance(1, 4)
     # the whole async-with statement may run inside the handler of an unrelated exception
     prep.ambient = ch.chance(1, 4)
+    # afterwards the same manager object is entered a second time (asyncstdlib side: contextlib forgets its arguments
+    # on entering and fails with AttributeError, so there is no twin for this step - it is judged by the property text)
+    prep.again = ch.chance(1, 4) and prep.handler != "yield_again" and prep.post != "yield_again"
     return prep
 
 
@@ -240,7 +243,8 @@ def make_exc(outcome):
     return KeyboardInterrupt("block")
 
 
-async def use(factory, prep, sim, log, injected, res):
+async def use(factory, prep, sim, log, injected, res, again=None):
+    cm = None
     try:
         cm = factory("arg", **prep.kwargs)
         async with cm as value:
@@ -257,9 +261,21 @@ async def use(factory, prep, sim, log, injected, res):
         log.append(("statement_left",))
         res.append(("raised", type(err).__name__, err is injected[0], getattr(err, "marker", None)))
         res.append(("message (never compared)", str(err)[:120]))
+    if again is not None and cm is not None:
+        # the used-up manager object entered once more: its generator cannot yield again, which is what must be reported -
+        # the generator function is not to be called a second time behind the user's back
+        starts = sum(1 for e in log if e[0] == "start")
+        try:
+            async with cm:
+                again.append("entered again")
+        except BaseException as err:
+            if type(err).__name__ == "Cancel":
+                raise
+            again.append(type(err).__name__)
+        again.append(sum(1 for e in log if e[0] == "start") - starts)
 
 
-def one_side(prep, outcome, st, decorator, interrupts):
+def one_side(prep, outcome, st, decorator, interrupts, again=None):
     sim = new_sim(st, interrupts=False)
     set_interrupts(sim, interrupts)
     log, res = [], []
@@ -284,11 +300,11 @@ def one_side(prep, outcome, st, decorator, interrupts):
             try:
                 raise LookupError("unrelated, being handled by the caller")
             except LookupError:
-                await use(call, prep, sim, log, injected, res)
+                await use(call, prep, sim, log, injected, res, again)
 
         sim.spawn(in_handler())
     else:
-        sim.spawn(use(call, prep, sim, log, injected, res))
+        sim.spawn(use(call, prep, sim, log, injected, res, again))
     run_sim(sim)
     return sim, log, res
 
@@ -297,7 +313,8 @@ def run_prepared(prep, st, ctx):
     out = Outcome()
     outcome = OUTCOMES[st.faults.draw(len(OUTCOMES))]
     L = lib()
-    sim, alog, ares = one_side(prep, outcome, st, L.contextmanager, (0, 0, 5, 2)[prep.interrupt])
+    again = [] if prep.again else None
+    sim, alog, ares = one_side(prep, outcome, st, L.contextmanager, (0, 0, 5, 2)[prep.interrupt], again)
     # the reference runs on its own simulator with an independent (fixed) schedule: single task
     from ..choice import Chooser, Streams
     rst = Streams(st.scenario, st.faults, Chooser(replay=[]))
@@ -320,6 +337,10 @@ def run_prepared(prep, st, ctx):
         if not ares or not rres:
             out.violate("C13.did_not_finish", sig, describe())
         else:
+            if again is not None and prep.pre == "yield" and (len(again) != 2 or again[0] != "RuntimeError" or again[1] != 0):
+                out.violate("C13.used_up_manager_entered_again", sig, dict(describe(), second_entry=again))
+            elif again is not None and prep.pre == "yield":
+                out.probes["second_entry_of_used_manager"] = 1
             a, r = ares[0], rres[0]
             # "resumes or throws into the generator exactly once": a generator that yields a second time is reported, not
             # closed on the spot (contextlib of 3.12 does close it: those events are dropped from the reference log);
